@@ -34,6 +34,10 @@ type AllocationConfig struct {
 	BindingCheckInterval      time.Duration
 }
 
+// maxPermissionsPerRequest bounds the peer addresses in one CreatePermission
+// refresh (50 IPv6 addresses are 1200 bytes of attributes).
+const maxPermissionsPerRequest = 50
+
 type allocation struct {
 	client            Client                // Read-only
 	relayedAddr       net.Addr              // Read-only
@@ -127,13 +131,19 @@ func (a *allocation) refreshPermissions() error {
 
 		return nil
 	}
-	if err := a.CreatePermissions(addrs...); err != nil {
-		if errors.Is(err, errTryAgain) {
-			return errTryAgain
-		}
-		a.log.Errorf("Fail to refresh permissions: %s", err)
+	// One request per maxPermissionsPerRequest addresses: a request naming
+	// every peer of a busy socket would outgrow a datagram the server accepts.
+	for len(addrs) > 0 {
+		n := min(len(addrs), maxPermissionsPerRequest)
+		if err := a.CreatePermissions(addrs[:n]...); err != nil {
+			if errors.Is(err, errTryAgain) {
+				return errTryAgain
+			}
+			a.log.Errorf("Fail to refresh permissions: %s", err)
 
-		return err
+			return err
+		}
+		addrs = addrs[n:]
 	}
 	a.log.Debug("Refresh permissions successful")
 
